@@ -40,8 +40,8 @@ CHECKS = {
         technique="metamorphic property testing (representation changes, strategy lattice) with attribution by differential re-run",
     ),
     "C14": dict(
-        text="Differential testing of the operational layers: BatchReactor.fit per entry vs SynReactor on that entry alone (ordered lists) over generated batches with repeats and look-alike substrates, cache on/off, cache sizes 1/2/32768, entry/rule worker counts 1-4; the same under a legal adversarial id() (fault injection: a new object may receive the id of a dead one, chosen by generated booleans, GC forced so 'dead' is deterministic); parallel vs serial validate_smiles and dicts_balance_check; parallel (2-8 workers) vs serial SynCRN.build; batched vs one-shot clustering.",
-        note="OS scheduling of worker processes is not controlled: equality is shown for the worker counts and batches generated. The adversarial id respects the language guarantee (unique among live objects).",
+        text="Differential testing of the operational layers: BatchReactor.fit per entry vs SynReactor on that entry alone (ordered lists) over generated batches with repeats and look-alike substrates, cache on/off, cache sizes 1/2/32768, entry/rule worker counts 1-4; the same under a legal adversarial id() (fault injection: a new object may receive the id of a dead one, chosen by generated booleans, GC forced so 'dead' is deterministic); parallel vs serial validate_smiles and dicts_balance_check; parallel (2-8 workers) vs serial SynCRN.build; batched vs one-shot clustering; and schedule injection: joblib.Parallel / ProcessPoolExecutor replaced in the tested modules' globals by executors that run the tasks in a generated order (results returned in submission order, as the real ones guarantee), so 'which task runs first' is an ordinary generated choice; rule pre-filter configurations are compared parallel vs serial.",
+        note="With real process pools the OS schedule is not controlled (equality is shown for the worker counts and batches generated); the generated-order executors cover the order of execution but run in one process, so they do not cover faults that need separate address spaces. The adversarial id respects the language guarantee (unique among live objects).",
         technique="differential property testing with fault injection on object identity (Hypothesis-driven)",
     ),
     "C10": dict(
